@@ -125,10 +125,11 @@ def rt_prelude(repo):
 struct rtable { char* data; size_t size; };
 struct ReferenceTable { struct rtable m_table; unsigned int current_entry; };
 uint64_t ghost_adds;     /* ghost: number of strings entered into the table so far (the o5m numbering counts these) */
+uint32_t ghost_slot;     /* ghost: ring position of the next entry = ghost_adds mod 15000 (maintained incrementally: no 64-bit division in the proof) */
 size_t ghost_c;          /* ghost: a byte position inside a string */
 #define N_ENT 15000u
 /* o5m format: the table has 15000 entries of 256 bytes; strings of more than 250 characters (252 bytes with both NULs) are not entered */
-#define RT_OK(t) ((t)->current_entry < N_ENT && (t)->current_entry == ghost_adds % N_ENT && ((t)->m_table.size == 0 || ((t)->m_table.size == 15000u * 256u && __CPROVER_is_fresh((t)->m_table.data, (t)->m_table.size))))
+#define RT_OK(t) ((t)->current_entry < N_ENT && (t)->current_entry == ghost_slot && ghost_slot < N_ENT && (((t)->m_table.size == 0 && (t)->m_table.data == 0) || ((t)->m_table.size == 15000u * 256u && __CPROVER_is_fresh((t)->m_table.data, (t)->m_table.size))))
 size_t ghost_tabsize;    /* ghost: equals the requested size; kept symbolic so that CBMC does not flatten a 3.8 MB array */
 void rtable_resize(struct rtable* s, size_t n)
   __CPROVER_requires(__CPROVER_rw_ok(s, sizeof(*s)) && s->size == 0 && n >= 1 && n <= 4000000 && ghost_tabsize == n) __CPROVER_assigns(s->size, s->data)
@@ -157,13 +158,13 @@ PIPELINES.append(Pipeline('U5_ReferenceTable_add', units=[U_rtadd], prelude=rt_p
 PIPELINES.pop()
 # add() with the ghost counter maintained by a woven ghost statement next to the ring increment
 U_rtadd_g = Unit(O5M, 'add', cls='ReferenceTable', extra_members=['current_entry'], pre=RT_RULES + [(r'm_table\.resize\(', 'rtable_resize(&m_table, ')],
-                 post=[(r'if \(\+\+self->current_entry == number_of_entries\)', 'ghost_adds = ghost_adds + 1; /*ghost*/ if (++self->current_entry == number_of_entries)')])
+                 post=[(r'if \(\+\+self->current_entry == number_of_entries\)', 'ghost_adds = ghost_adds + 1; ghost_slot = (ghost_slot + 1 == N_ENT) ? 0 : ghost_slot + 1; /*ghost*/ if (++self->current_entry == number_of_entries)')])
 PIPELINES.append(Pipeline('U5_ReferenceTable_add', units=[U_rtadd_g], prelude=lambda repo: rt_prelude(repo).replace('__CPROVER_ensures(ghost_c >= n || dst[ghost_c] == src[ghost_c]);', ';'), contracts={'ReferenceTable_add': [
     ('pre', 'requires', 'ghost_tabsize == 15000u * 256u && __CPROVER_is_fresh(self, sizeof(*self)) && RT_OK(self) && size >= 1 && size <= 100000 && __CPROVER_is_fresh(string, size) && ghost_adds < (1ULL << 62)'),
     ('post:strings of up to 250 characters (252 bytes) are entered, longer ones are not and do not shift the numbering', 'ensures',
      'ghost_adds == __CPROVER_old(ghost_adds) + (size <= 252 ? 1 : 0)'),
-    ('post:ring position follows the count (representation invariant)', 'ensures', 'self->current_entry == ghost_adds % N_ENT && self->current_entry < N_ENT'),
-    ('frame', 'assigns', 'self->current_entry, self->m_table.size, self->m_table.data, __CPROVER_object_whole(self->m_table.data), ghost_adds')]},
+    ('post:ring position follows the count (representation invariant)', 'ensures', 'self->current_entry == ghost_slot && ghost_slot < N_ENT && ghost_slot == (size <= 252 ? (__CPROVER_old(ghost_slot) + 1 == N_ENT ? 0 : __CPROVER_old(ghost_slot) + 1) : __CPROVER_old(ghost_slot))'),
+    ('frame', 'assigns', 'self->current_entry, self->m_table.size, self->m_table.data, ghost_adds, ghost_slot'), ('frame:table bytes', 'assigns', 'self->m_table.size != 0: __CPROVER_object_whole(self->m_table.data)')]},
     replace=['rtable_resize', 'copy_n'], enforce='ReferenceTable_add',
     harness='void harness(void) { struct ReferenceTable* t; const char* s; size_t n; ReferenceTable_add(t, s, n); __CPROVER_assert(0, "canary"); }',
     replay=('c02_kernels', lambda cex, o: ['rtable']),
@@ -173,10 +174,10 @@ PIPELINES.append(Pipeline('U5_ReferenceTable_add_content', units=[U_rtadd_g], pr
     ('post:strings of up to 250 characters (252 bytes) are entered, longer ones are not and do not shift the numbering', 'ensures',
      'ghost_adds == __CPROVER_old(ghost_adds) + (size <= 252 ? 1 : 0)'),
     ('post:the entry is the next slot of the ring and holds exactly the string bytes', 'ensures',
-     '!(size <= 252) || (self->m_table.size == 15000u * 256u && (ghost_c >= size || self->m_table.data[(__CPROVER_old(ghost_adds) % N_ENT) * 256 + ghost_c] == string[ghost_c]))'),
-    ('post:ring position follows the count (representation invariant)', 'ensures', 'self->current_entry == ghost_adds % N_ENT && self->current_entry < N_ENT'),
-    ('frame', 'assigns', 'self->current_entry, self->m_table.size, self->m_table.data, __CPROVER_object_whole(self->m_table.data), ghost_adds')]},
-    replace=['rtable_resize', 'copy_n'], enforce='ReferenceTable_add', tier='thorough', solver='kissat', timeout=2400,
+     '!(size <= 252) || (self->m_table.size == 15000u * 256u && (ghost_c >= size || self->m_table.data[__CPROVER_old(ghost_slot) * 256 + ghost_c] == string[ghost_c]))'),
+    ('post:ring position follows the count (representation invariant)', 'ensures', 'self->current_entry == ghost_slot && ghost_slot < N_ENT && ghost_slot == (size <= 252 ? (__CPROVER_old(ghost_slot) + 1 == N_ENT ? 0 : __CPROVER_old(ghost_slot) + 1) : __CPROVER_old(ghost_slot))'),
+    ('frame', 'assigns', 'self->current_entry, self->m_table.size, self->m_table.data, ghost_adds, ghost_slot'), ('frame:table bytes', 'assigns', 'self->m_table.size != 0: __CPROVER_object_whole(self->m_table.data)')]},
+    replace=['rtable_resize', 'copy_n'], enforce='ReferenceTable_add',
     harness='void harness(void) { struct ReferenceTable* t; const char* s; size_t n; ReferenceTable_add(t, s, n); __CPROVER_assert(0, "canary"); }',
     replay=('c02_kernels', lambda cex, o: ['rtable']),
     note='ghost_adds counts accepted strings; the only woven ghost statement is its increment next to the ring increment'))
@@ -185,7 +186,7 @@ PIPELINES.append(Pipeline('U5_ReferenceTable_get', units=[U_rtget], prelude=rt_p
     ('post:references 1..15000 into a table in use are valid, everything else is rejected', 'ensures', '(verif_exc == 0) == (self->m_table.size != 0 && index >= 1 && index <= 15000)'),
     ('post:rejected with o5m_error', 'ensures', 'verif_exc == 0 || verif_exc == EXC_o5m_error'),
     ('post:o5m numbering: reference i is the string entered i accepted adds ago (slot (adds - i) mod 15000)', 'ensures',
-     'verif_exc != 0 || __CPROVER_return_value == self->m_table.data + ((ghost_adds % N_ENT + N_ENT - index) % N_ENT) * 256'),
+     'verif_exc != 0 || __CPROVER_return_value == self->m_table.data + ((ghost_slot + N_ENT - (uint32_t)index) % N_ENT) * 256'),
     ('frame', 'assigns', 'verif_exc')]}, enforce='ReferenceTable_get',
     harness='void harness(void) { struct ReferenceTable* t; uint64_t i; ReferenceTable_get(t, i); __CPROVER_assert(verif_exc != 0, "canary:normal"); __CPROVER_assert(verif_exc == 0, "canary:throw"); }',
     canaries=['canary:normal', 'canary:throw'], replay=('c02_kernels', lambda cex, o: ['rtable'])))
